@@ -45,6 +45,8 @@ def cases_for(ck, quick):
     n_ex = len(cases)
     feats = {"fun", "call", "loops", "match", "tuple", "obj", "handle", "raise"}
     cases += S.random_cases(ck.rng, 500 if quick else 12000, size=(3, 14), features=feats, p_bad=0.04)
+    # initialisers that read the name they define (typed / untyped, every kind of scope, with controls)
+    cases += S.selfref_corpus()
     return cases, n_ex
 
 
@@ -53,8 +55,14 @@ def run(tier, replay=None):
     quick = tier == "quick"
     ck.proof(["props/C09.vo"], "props.C09", THEOREMS)
     build_harness(ck.log)
+    ctor_only = None
     if replay:
-        cases, n_ex = S.load_replay(replay), 0
+        import json
+        d = json.load(open(replay))
+        if "ctor_body" in d:
+            ctor_only, cases, n_ex = [(S.tuplify(d["ctor_body"]), tuple(d["fields"]))], [], 0
+        else:
+            cases, n_ex = S.load_replay(replay), 0
     else:
         cases, n_ex = cases_for(ck, quick)
     recs = S.evaluate(cases, ck.log)
@@ -91,6 +99,22 @@ def run(tier, replay=None):
                            {"variant": v, "python_error": status, "message": msg,
                             "emitted_from": S.render(r.p, r.tb, v)})
                 break
+    # ---- constructors: definite assignment of fields (specification + emitted Python only, no model) -------
+    seen_ctor = {}
+
+    def rep_ctor(what, cause, text, data):
+        seen_ctor[cause] = seen_ctor.get(cause, 0) + 1
+        known = ck.match_finding(text) is not None
+        if seen_ctor[cause] <= 3:
+            seen_ctor[cause + "/replay"] = ck.write_replay("ctor", dict(data, what=what, cause=cause, case_text=text))
+        if known or seen_ctor[cause] <= 3:
+            ck.violation(what, seen_ctor[cause + "/replay"], text)
+
+    if ctor_only is not None or not replay:
+        ck.cov["constructor_fields"] = S.run_ctor_family(ck, rep_ctor, quick, only=ctor_only)
+        ck.cov["constructor_fields"]["causes"] = {k: v for k, v in seen_ctor.items() if not k.endswith("/replay")}
+        ck.cov["constructor_fields"]["note"] = ("class bodies are not part of model/Scope.v: judged by the flow "
+                                                "specification ctor_spec and by running the emitted Python")
     ck.cov["direct_oracle"] = {"accepted_but_spec_forbids": n_sound, "rejected_but_spec_allows": n_over,
                                "python_runs": n_run, "python_outcomes": rt, "name_errors": n_name,
                                "causes": rep.summary()}
@@ -99,6 +123,11 @@ def run(tier, replay=None):
     S.finish_cov(ck, recs, st,
                  f"skeleton programs (model/Scope.v syntax) rendered to Mamba: all {n_ex} programs of <= 3 nodes "
                  "and a sample of those of 4 nodes over an alphabet of 7 simple statements and 6 compound forms "
-                 "(thorough: all of size 4), plus random programs of 3..14 nodes with every construct; distinct "
-                 "by skeleton, non-trivial = at least 3 nodes", samples, extra_eval=n_run)
+                 "(thorough: all of size 4), plus random programs of 3..14 nodes with every construct, a corpus of "
+                 "self-referencing initialisers (typed/untyped x 13 scopes x earlier/no definition), and - outside the "
+                 "model - constructor bodies over field assignment/read/return/raise in if/else, match, loops (all "
+                 "pairs of 26 branch shapes x prefixes x suffixes; quick: a sample); distinct by skeleton, "
+                 "non-trivial = at least 3 nodes", samples,
+                 extra_eval=n_run + ck.cov.get("constructor_fields", {}).get("programs", 0)
+                 + ck.cov.get("constructor_fields", {}).get("python_runs", 0))
     return ck.finish()
